@@ -162,6 +162,12 @@ class HierarchicalProblem(up.model.problem.Problem):
                 return TEMPORAL
 
         ordering_kind = lvl(self.task_network)
+        # the types of task / method parameters and of task network variables are used by the problem
+        for task in self.tasks:
+            for p in task.parameters:
+                factory.update_problem_kind_type(p.type)
+        for v in self.task_network.variables:
+            factory.update_problem_kind_type(v.type)
         if len(self.task_network.variables) > 0:
             factory.kind.set_hierarchical("INITIAL_TASK_NETWORK_VARIABLES")
         non_temporal = self.task_network.non_temporal_constraints()
@@ -172,6 +178,8 @@ class HierarchicalProblem(up.model.problem.Problem):
 
         for method in self.methods:
             ordering_kind = max(ordering_kind, lvl(method))
+            for p in method.parameters:
+                factory.update_problem_kind_type(p.type)
             for method_cond in method.preconditions:
                 factory.kind.set_hierarchical("METHOD_PRECONDITIONS")
                 factory.update_problem_kind_expression(method_cond)
